@@ -79,7 +79,7 @@ prop("C05", "Only the counterparty, in its proper role", "exploration", "mgrx",
 
 prop("C10", "Restart resumes the same transfer", "exploration", "mgrx",
      "property testing (rapid): before/after identity diff of the channel record, content of the re-issued request / transport open, validator call order; crash-restart in cleanup statuses",
-     [hx("TestC10_GsxPending", 800, 16000), hx("TestC16_Gsx", 800, 16000), hx("TestC10_MgrxLocal", 1500, 32000), hx("TestC10_MgrxCleanup", 600, 8000), hx("TestC04_MgrxRestart", 800, 8000), hx("TestC05_MgrxRestart", 800, 8000)],
+     [hx("TestC10_GsxPending", 800, 16000), hx("TestC16_Gsx", 800, 16000), hx("TestC10_MgrxLocal", 1500, 32000), hx("TestC10_MgrxReplay", 1000, 24000), hx("TestC10_MgrxCleanup", 600, 8000), hx("TestC04_MgrxRestart", 800, 8000), hx("TestC05_MgrxRestart", 800, 8000)],
      ["'a rejected restart fails the channel' is applied to the incoming restart request path; a responder whose own validator rejects a locally requested restart must send nothing and return an error (DESIGN 6.3)"],
      "generated roles x progress points x statuses x process restart x validator outcomes; sampled",
      TRUST)
